@@ -334,6 +334,11 @@ def finish(ctx, level="proof", extra_assumptions=None):
     cov.setdefault("trusted_base", TRUSTED_BASE)
     cov["broken"] = ctx.broken
     cov["known_findings_reported"] = ctx.known
+    if cov["discharged"] < 1 or cov["discharged"] != cov["obligations"]:
+        # a proof obligation did not check on this run: this is not proof-level evidence
+        level = "other"
+        cov["explanation"] = ("proof obligations did not all check on this run (see coverage.broken); "
+                              "the verdict of this run is a VIOLATION, the counts below describe the search")
     ev = {
         "property_id": ctx.prop, "tier": ctx.tier, "seed": ctx.seed, "level": level,
         "coverage": cov,
@@ -341,7 +346,7 @@ def finish(ctx, level="proof", extra_assumptions=None):
         "wall_s": round(wall, 2),
         "violations": len(ctx.violations) + (1 if (ctx.broken and not ctx.violations) else 0),
     }
-    if REPO == "/repo" or os.environ.get("VERIF_WRITE_EVIDENCE"):
+    if (REPO == "/repo" and not os.environ.get("VERIF_NO_EVIDENCE")) or os.environ.get("VERIF_WRITE_EVIDENCE"):
         os.makedirs(os.path.join(VERIF, "evidence"), exist_ok=True)
         with open(os.path.join(VERIF, "evidence", f"{ctx.prop}.json"), "w") as f:
             json.dump(ev, f, indent=1, default=str)
